@@ -499,6 +499,25 @@ var c16Opts = gen.WSOpts{MinFiles: 1, MaxFiles: 3, Islands: true,
 func genC16(t *rapid.T, p *gen.Profile) *C16Case {
 	pools := gen.GenPools(t, p)
 	ws := gen.GenWorkspace(t, p, pools, c16Opts)
+	if rapid.IntRange(0, 2).Draw(t, "casevariants") == 0 {
+		// an account whose parent is another account's parent in a different spelling: matching ignores
+		// case in every segment, so both are children of whatever spelling is typed
+		base := rapid.SampledFrom(pools.Accounts).Draw(t, "cvbase")
+		if i := strings.LastIndex(base, ":"); i > 0 {
+			parent := base[:i]
+			variant := strings.ToUpper(parent)
+			if rapid.Bool().Draw(t, "cvtitle") {
+				rs := []rune(parent)
+				variant = string(unicode.ToUpper(rs[0])) + string(rs[1:])
+			}
+			if variant != parent {
+				fj := ws.Files[rapid.IntRange(0, len(ws.Files)-1).Draw(t, "cvfile")].Journal
+				fj.Entries = append(fj.Entries, m.Entry{Tx: &m.Tx{Date: m.Date{Y: 2024, M: 5, D: 5, Sep: "-", Pad: true}, Payee: "spelled otherwise",
+					Body: []m.BodyItem{{P: &m.Posting{Account: variant + ":other side", Amt: &m.Amount{Q: m.Num{Mant: "1"}, Sym: "EUR", SymSpace: true}, Indent: "    ", Sep: "  "}},
+						{P: &m.Posting{Account: base, Indent: "    ", Sep: "  "}}}}, Blank: 1})
+			}
+		}
+	}
 	c := &C16Case{WS: ws, Root: rapid.Bool().Draw(t, "root"), Fuzzy: rapid.Bool().Draw(t, "fuzzy"), Count: rapid.Bool().Draw(t, "counts")}
 	if c.Root && rapid.IntRange(0, 3).Draw(t, "inroottree") != 0 {
 		c.From = rapid.SampledFrom(ws.Reachable(0)).Draw(t, "from")
@@ -583,8 +602,8 @@ func genC16(t *rapid.T, p *gen.Profile) *C16Case {
 		if strings.ContainsAny(s.Fragment, " \"") {
 			s.Fragment = "" // a quoted commodity is not typed letter by letter
 		}
-		if i := strings.IndexAny(s.Fragment, ":,"); i >= 0 {
-			s.Fragment = s.Fragment[:i] // no part of a commodity's name
+		if i := strings.IndexAny(s.Fragment, ":,0123456789"); i >= 0 {
+			s.Fragment = s.Fragment[:i] // no part of a commodity's name (a name with digits is written in quotes)
 		}
 		s.Fragment = strings.TrimLeft(s.Fragment, ".") // a name does not begin with a point
 		if leftPlace && s.Fragment == "" {
@@ -596,7 +615,7 @@ func genC16(t *rapid.T, p *gen.Profile) *C16Case {
 		if strings.ContainsAny(s.Fragment, " \"") {
 			s.Fragment = ""
 		}
-		if i := strings.IndexAny(s.Fragment, ":,"); i >= 0 {
+		if i := strings.IndexAny(s.Fragment, ":,0123456789"); i >= 0 {
 			s.Fragment = s.Fragment[:i]
 		}
 		s.Fragment = strings.TrimLeft(s.Fragment, ".")
@@ -627,7 +646,7 @@ func genC16(t *rapid.T, p *gen.Profile) *C16Case {
 	if !p.Off("c16.no-name-places") && rapid.IntRange(0, 9).Draw(t, "noname") == 0 {
 		// inside a directive keyword or a transaction code
 		sym := pick(t, names.commodities.all, "EUR", "nsym")
-		if strings.ContainsAny(sym, " \"") {
+		if strings.ContainsAny(sym, " \"0123456789") {
 			sym = "EUR"
 		}
 		acct := pick(t, names.accounts.all, "assets:cash", "nacct")
@@ -641,9 +660,9 @@ func genC16(t *rapid.T, p *gen.Profile) *C16Case {
 	} else if !p.Off("c16.commodity.before-number") && rapid.IntRange(0, 9).Draw(t, "beforenum") == 0 {
 		// the commodity on the left of a number that is already there: USD|12.50
 		sym := pick(t, names.commodities.all, "EUR", "bsym")
-		if !strings.ContainsAny(sym, " \".:,") {
+		if !strings.ContainsAny(sym, " \".:,0123456789") {
 			frag := genFragment(t, sym)
-			if i := strings.IndexAny(frag, ":,."); i >= 0 {
+			if i := strings.IndexAny(frag, ":,.0123456789"); i >= 0 {
 				frag = frag[:i]
 			}
 			if frag != "" {
